@@ -85,6 +85,17 @@ def prepLine (line : String) : String :=
       let so := { st with leaveOut := om }
       s!"twinx {" ".intercalate rest} | {hexOf (toProj4 c st)} {hexOf (toProj4 c so)} {hexOf (toWkt c st)} {hexOf (toWkt c so)}"
     | _, _ => "skip bad-twin-line"
+  | "prjcrs" :: n :: rest =>
+    -- a .prj file of at least `n` bytes: the WKT of a generated description, blanks after its first comma
+    match parseCrs (rest.take 16), n.toNat? with
+    | some (c, st), some n =>
+      let w := toWkt c st
+      let pad := List.replicate (n - w.length) ' '
+      let w' := match w.span (· ≠ ',') with
+        | (a, ',' :: b) => a ++ ',' :: pad ++ b
+        | _ => w
+      s!"prj {hexOf w'}"
+    | _, _ => "skip bad-prjcrs-line"
   | "sph" :: rest =>
     -- a SPHERE in both notations: PROJ.4 `+a=R +b=R`, WKT `SPHEROID[..,R,0]`
     match parseCrs (rest.take 16) with
